@@ -62,7 +62,7 @@ package couchbase
 //@ props C14
 //@ requires h != nil && h.client != nil && h.membershipConfig != nil
 //@ check.key[C14] dcalls("couchbase.UpdateDocument") == 1 && darg("couchbase.UpdateDocument", 0, id) == h.id
-//@ modifies calls("couchbase.UpdateDocument"), calls("gocbcore.(*Agent).MutateIn"), calls(couchbase.AsyncOp.Wait), calls(gocbcore.PendingOp.Cancel), calls(select.case), calls(couchbase.Client.GetMetaAgent)
+//@ modifies calls("couchbase.UpdateDocument"), calls("gocbcore.(*Agent).MutateIn"), calls(couchbase.AsyncOp.Wait), calls(gocbcore.PendingOp.Cancel), calls(select.case), calls(couchbase.Client.GetMetaAgent), calls("time.(Time).UnixNano")
 
 //@ func (*cbMembership).updateIndex
 //@ props C14 C10
@@ -76,7 +76,7 @@ package couchbase
 //@ props C14
 //@ requires h != nil && h.client != nil && h.membershipConfig != nil
 //@ check.keys[C14] (forall i int :: 0 <= i && i < dcalls("couchbase.UpdateDocument") ==> darg("couchbase.UpdateDocument", i, id) == h.id) && (forall i int :: 0 <= i && i < dcalls("couchbase.CreateDocument") ==> darg("couchbase.CreateDocument", i, id) == h.id) && dcalls("couchbase.(*cbMembership).createIndex") == 1 && darg("couchbase.(*cbMembership).createIndex", 0, h) == h
-//@ modifies h.clusterJoinTime, calls("couchbase.(*cbMembership).createIndex"), calls("couchbase.CreatePath"), calls("couchbase.UpdateDocument"), calls("couchbase.CreateDocument"), calls("gocbcore.(*Agent).MutateIn"), calls("gocbcore.(*Agent).Set"), calls(couchbase.AsyncOp.Wait), calls(gocbcore.PendingOp.Cancel), calls(select.case), calls(couchbase.Client.GetMetaAgent)
+//@ modifies h.clusterJoinTime, calls("couchbase.(*cbMembership).createIndex"), calls("couchbase.CreatePath"), calls("couchbase.UpdateDocument"), calls("couchbase.CreateDocument"), calls("gocbcore.(*Agent).MutateIn"), calls("gocbcore.(*Agent).Set"), calls(couchbase.AsyncOp.Wait), calls(gocbcore.PendingOp.Cancel), calls(select.case), calls(couchbase.Client.GetMetaAgent), calls("time.(Time).UnixNano")
 
 //@ func (*cbMembership).startHeartbeat
 //@ props C14
@@ -98,4 +98,4 @@ package couchbase
 //@ ensures.keys_reserved[C14] result != nil && typeis(result, "*cbMembership") && hasprefix(str(cbm.id), helpers.Prefix) && hasprefix(str(cbm.instanceAll), helpers.Prefix)
 //@ ensures.keys_shape[C14] str(cbm.instanceAll) == helpers.Prefix + config.Dcp.Group.Name + ":" + "instance" + ":all"
 //@ ensures.registered[C14] dcalls("couchbase.(*cbMembership).register") == 1 && darg("couchbase.(*cbMembership).register", 0, h) == cbm
-//@ modifies calls("couchbase.(*cbMembership).register"), calls("couchbase.(*cbMembership).createIndex"), calls("couchbase.CreatePath"), calls("couchbase.UpdateDocument"), calls("couchbase.CreateDocument"), calls("gocbcore.(*Agent).MutateIn"), calls("gocbcore.(*Agent).Set"), calls(couchbase.AsyncOp.Wait), calls(gocbcore.PendingOp.Cancel), calls(select.case), calls(couchbase.Client.GetMetaAgent), calls("couchbase.(*cbMembership).startHeartbeat"), calls("couchbase.(*cbMembership).startMonitor")
+//@ modifies calls("couchbase.(*cbMembership).register"), calls("couchbase.(*cbMembership).createIndex"), calls("couchbase.CreatePath"), calls("couchbase.UpdateDocument"), calls("couchbase.CreateDocument"), calls("gocbcore.(*Agent).MutateIn"), calls("gocbcore.(*Agent).Set"), calls(couchbase.AsyncOp.Wait), calls(gocbcore.PendingOp.Cancel), calls(select.case), calls(couchbase.Client.GetMetaAgent), calls("couchbase.(*cbMembership).startHeartbeat"), calls("couchbase.(*cbMembership).startMonitor"), calls("time.(Time).UnixNano")
